@@ -180,7 +180,7 @@ theorem dnsnameMatch_eq {san host leftmost : Str} {remainder : List Str} (hne : 
       else if leftmost.count star = 0 then .ok (lower san == lower host)
       else .ok (matchPats
         (if leftmost = [star] then .plus
-         else if xnPrefix.isPrefixOf leftmost || xnPrefix.isPrefixOf host then .literal leftmost
+         else if xnPrefix.isPrefixOf (lower leftmost) || xnPrefix.isPrefixOf (lower host) then .literal leftmost
          else .glob leftmost) remainder host) := by
   unfold dnsnameMatch
   have : san.isEmpty = false := by cases san <;> simp_all
@@ -189,6 +189,23 @@ theorem dnsnameMatch_eq {san host leftmost : Str} {remainder : List Str} (hne : 
 
 theorem dnsnameMatch_nil (host : Str) : dnsnameMatch [] host = .ok false := by
   simp [dnsnameMatch]
+
+/-- the only exception `_dnsname_match` raises is `CertificateError` -/
+theorem dnsnameMatch_error {san host : Str} {e : Exc} (h : dnsnameMatch san host = .error e) :
+    e = .certificateError := by
+  by_cases hn : san = []
+  · subst hn; rw [dnsnameMatch_nil] at h; cases h
+  · obtain ⟨l, r, hsp⟩ := split_cons_of_ne_nil san
+    rw [dnsnameMatch_eq hn hsp] at h
+    split at h
+    · cases h; rfl
+    · split at h <;> cases h
+
+/-- `s.lower().startswith("xn--")`: the first four characters spell the ACE prefix in any capitalisation -/
+theorem xnPrefix_lower_iff (s : Str) : xnPrefix.isPrefixOf (lower s) = true ↔ lower (s.take 4) = xnPrefix := by
+  rw [List.isPrefixOf_iff_prefix, List.prefix_iff_eq_take]
+  simp only [lower, List.map_take, xnPrefix, List.length_cons, List.length_nil]
+  exact eq_comm
 
 theorem matchPats_true {p : LeftPat} {remainder : List Str} {host : Str} (h : matchPats p remainder host = true) :
     ∃ h0 hs, splitOn1 dot host = h0 :: hs ∧ matchLeft p h0 = true ∧ labelsEqCI remainder hs = true := by
@@ -226,6 +243,76 @@ theorem sanLoop_other {key : Str} (hk : key ≠ kDNS) (hk2 : key ≠ kIP) (host 
     (value : Str) (rest : List (Str × Str)) (names : List Str) :
     sanLoop host hip ((key, value) :: rest) names = sanLoop host hip rest names := by
   rw [sanLoop.eq_def]; simp [hk, hk2]
+
+/-- DNS host, dNSName entry that matches: the function returns -/
+theorem sanLoop_dns_none_true {host value : Str} (hm : dnsnameMatch value host = .ok true)
+    (rest : List (Str × Str)) (names : List Str) :
+    sanLoop host none ((kDNS, value) :: rest) names = .ok none := by
+  rw [sanLoop]; simp [hm]
+
+/-- DNS host, dNSName entry that does not match — or is malformed (`CertificateError` is passed
+over): the loop goes on with the remaining entries -/
+theorem sanLoop_dns_none_skip {host value : Str} (hm : dnsnameMatch value host ≠ .ok true)
+    (rest : List (Str × Str)) (names : List Str) :
+    sanLoop host none ((kDNS, value) :: rest) names = sanLoop host none rest (names ++ [value]) := by
+  rw [sanLoop]
+  cases hd : dnsnameMatch value host with
+  | error e => cases dnsnameMatch_error hd; simp
+  | ok b =>
+    cases b with
+    | true => exact absurd hd hm
+    | false => simp
+
+/-- DNS host: an iPAddress entry is only recorded -/
+theorem sanLoop_ip_none (host value : Str) (rest : List (Str × Str)) (names : List Str) :
+    sanLoop host none ((kIP, value) :: rest) names = sanLoop host none rest (names ++ [value]) := by
+  rw [sanLoop]; simp [show ¬ kIP = kDNS by decide]
+
+/-- DNS host: the SAN loop never raises (malformed dNSName entries are passed over, iPAddress
+entries are not parsed) -/
+theorem sanLoop_dns_host_no_error {host : Str} {san : List (Str × Str)} {names : List Str} (x : Exc) :
+    sanLoop host none san names ≠ .error x := by
+  induction san generalizing names with
+  | nil => simp [sanLoop]
+  | cons e rest ih =>
+    obtain ⟨key, value⟩ := e
+    by_cases hk : key = kDNS
+    · subst hk
+      by_cases hm : dnsnameMatch value host = .ok true
+      · rw [sanLoop_dns_none_true hm]; simp
+      · rw [sanLoop_dns_none_skip hm]; exact ih
+    · by_cases hk2 : key = kIP
+      · subst hk2; rw [sanLoop_ip_none]; exact ih
+      · rw [sanLoop_other hk hk2]; exact ih
+
+/-- DNS host: the SAN loop returns iff some dNSName entry matches — wherever it stands in the list -/
+theorem sanLoop_dns_host_iff {host : Str} {san : List (Str × Str)} {names : List Str} :
+    sanLoop host none san names = .ok none ↔ ∃ e ∈ san, e.1 = kDNS ∧ dnsnameMatch e.2 host = .ok true := by
+  induction san generalizing names with
+  | nil => simp [sanLoop]
+  | cons e rest ih =>
+    obtain ⟨key, value⟩ := e
+    have skip : ∀ names', ¬ (key = kDNS ∧ dnsnameMatch value host = .ok true) →
+        sanLoop host none ((key, value) :: rest) names = sanLoop host none rest names' →
+        (sanLoop host none ((key, value) :: rest) names = .ok none ↔
+          ∃ e ∈ (key, value) :: rest, e.1 = kDNS ∧ dnsnameMatch e.2 host = .ok true) := by
+      intro names' hno heq
+      rw [heq, ih]
+      constructor
+      · rintro ⟨e, he, h⟩; exact ⟨e, List.mem_cons_of_mem _ he, h⟩
+      · rintro ⟨e, he, h⟩
+        rcases List.mem_cons.1 he with h' | h'
+        · subst h'; exact absurd h hno
+        · exact ⟨e, h', h⟩
+    by_cases hk : key = kDNS
+    · subst hk
+      by_cases hm : dnsnameMatch value host = .ok true
+      · rw [sanLoop_dns_none_true hm]
+        exact ⟨fun _ => ⟨(kDNS, value), by simp, rfl, hm⟩, fun _ => rfl⟩
+      · exact skip _ (fun h => hm h.2) (sanLoop_dns_none_skip hm ..)
+    · by_cases hk2 : key = kIP
+      · subst hk2; exact skip _ (fun h => hk h.1) (sanLoop_ip_none ..)
+      · exact skip _ (fun h => hk h.1) (sanLoop_other hk hk2 ..)
 
 /-- with an IP host, the SAN loop can only return through an iPAddress entry that matches -/
 theorem sanLoop_ip_match {host : Str} {ip : IpAddr} {san : List (Str × Str)} {names : List Str}
@@ -267,6 +354,8 @@ theorem sanLoop_names {host : Str} {hip : Option IpAddr} {san : List (Str × Str
     · rename_i hk
       split at h
       · split at h
+        · have := ih h
+          exact ⟨fun _ => this.1 happ, fun _ => this.1 happ⟩
         · cases h
         · cases h
         · have := ih h
